@@ -1345,3 +1345,38 @@ def run_X02(ctx):
         "(at most one owner at a time) and replayed on a real daemon; TLC compares the acknowledgement / end of connection the frontend "
         "observes for every letter with the model (claim while owned refused; release forgets the acknowledged features in the handler "
         "but not in the connection's request server; the handler state survives connections)", ASSUME_COMMON, viol)
+
+
+def run_X03(ctx):
+    """The daemon as a facade in front of the device backend (DeviceFacade.tla): optional device-level requests end to end."""
+    cfgs = ["MC_DeviceFacade_quick", "MC_DeviceFacade_gates"] if ctx.tier == "quick" else ["MC_DeviceFacade_thorough"]
+    hist = []
+    for cfg in cfgs:
+        hist += ctx.tlc_mc("MC_DeviceFacade", cfg, max_cases=(None if ctx.tier == "quick" else 30000))
+    cases = []
+    for i, c in enumerate(hist):
+        steps = []
+        for st in c["steps"]:
+            if st["op"] == "negotiate":
+                steps.append(dict(op="negotiate", feats=[30], pf=sorted(st["pf"])))
+            else:
+                steps.append(dict(st))
+        # every history on each of the three adapters (Arc<T>, Arc<Mutex<T>>, Arc<RwLock<T>>); ring flavour and queue count vary
+        for a, adapter in enumerate(("arc", "mutex", "rwlock")):
+            if ctx.tier == "thorough" and (i + a) % 3:
+                continue
+            nq = 1 + (i + a) % 3
+            cases.append(dict(nq=nq, masks=[(1 << nq) - 1], vring="rwlock" if (i + a) % 2 else "mutex", adapter=adapter, steps=steps))
+    cases = replay_or(ctx, "daemon", cases)
+    tr = ctx.harness("daemon", cases, shards=8)
+    viol = ctx.tlc_tv("TV_DeviceFacade", tr, "daemon")
+    ctx.count_distinct(tr, lambda e: (e.get("letter", {}).get("k"), e.get("letter", {}).get("h"), e.get("status"), len(e.get("dcbs", []))),
+                       lambda e: e.get("ev") == "step" and e.get("op") == "dev")
+    ctx.sample(tr, 2, skip=3)
+    ctx.exhaustive = True
+    return ctx.finish("model_checking",
+        "DeviceFacade.tla: histories negotiate(set) + device letters (11 optional device-level requests x scripted callback outcome) + reconnect "
+        "are model-checked (no callback through an unacknowledged gate or on a dead connection) and replayed on a real daemon through each of "
+        "the three backend adapters; TLC compares, for every letter, how often the device callback ran and with which arguments/file, what the "
+        "frontend observes (value reply, in-band failure, ack, nack, end of connection), the value/file carried by the reply, and that the GPU "
+        "proxy handed to the device talks to the socket the frontend supplied", ASSUME_COMMON, viol)
